@@ -61,6 +61,15 @@ def scalar_programs(rng):
         rec = Func("rec", [Arg("int", "n")], "int", Block([decl("m"), ES(A(cell("m"), B("+", cell("m"), n))), Decl("int", "below", I(0)), If(B(">", n, I(0)), Block([ES(A(V("below"), Call("rec", [B("-", n, I(1))])))])),
                                                           Ret(B("+", cell("m"), B("*", V("below"), I(10))))]))
         out.append(("aggregate-local-recursion-" + nm, mod(structs + [rec, Func("f", [Arg("int", "a"), Arg("int", "b")], "int", Block([Ret(B("+", Call("rec", [B("%", a, I(5))]), Call("rec", [B("%", b, I(4))])))]), export=True)])))
+    # names are per function: the parameters of a later function are named like the locals of an earlier one (and the other way round), callee
+    # and caller use the same names for different things -- each call still binds its own arguments
+    h1 = Func("h1", [Arg("int", "p")], "int", Block([Decl("int", "v", B("*", V("p"), I(2))), Decl("int", "i", B("+", V("v"), I(1))), Ret(V("i"))]))
+    h2 = Func("h2", [Arg("int", "v"), Arg("int", "i")], "int", Block([Decl("int", "p", B("-", V("v"), V("i"))), Ret(B("+", B("*", V("v"), I(10)), B("+", V("i"), B("*", V("p"), I(1000)))))]))
+    h3 = Func("h3", [Arg("float", "r"), Arg("int", "p")], "float", Block([Decl("float", "i", B("*", V("r"), F("0.5"))), Ret(B("+", V("i"), V("p")))]))
+    out.append(("parameter-named-like-earlier-local", mod([h1, h2, Func("f", [Arg("int", "a"), Arg("int", "b")], "int",
+               Block([Decl("int", "r", Call("h1", [a])), Decl("int", "v", Call("h2", [V("r"), b])), Ret(B("+", V("v"), Call("h2", [b, a])))]), export=True)])))
+    out.append(("parameter-named-like-callers-local", mod([h1, h2, h3, Func("f", [Arg("int", "a"), Arg("float", "b")], "float",
+               Block([Decl("int", "i", Call("h1", [a])), Decl("int", "p", Call("h2", [V("i"), a])), Decl("float", "r", Call("h3", [b, V("p")])), Ret(B("+", V("r"), B("+", V("i"), V("p"))))]), export=True)])))
     # overloads by int / float, argument conversion
     o1 = Func("o", [Arg("int", "p")], "int", Block([Ret(I(1))]))
     o2 = Func("o", [Arg("float", "p")], "int", Block([Ret(I(2))]))
